@@ -6,6 +6,7 @@ operation lists on one shared context table (any number of interleaved
 sessions, any MaxObjectCount sequence, any result-set size).
 -/
 import Proofs.Lemmas.Pull
+import Proofs.Lemmas.PullDrain
 
 namespace C14
 open Pywbem.Model.Pull Pywbem.Proto Proofs.Pull
@@ -342,6 +343,74 @@ example : paramErr { fql := .dmtf, fqSet := true, timeout := some 40 } = none :=
 example : paramErr { fql := .other } = some (.cimError 14) := by decide
 example : paramErr { fqSet := true } = some (.cimError 4) := by decide
 example : paramErr { timeout := some 41 } = some (.cimError 4) := by decide
+
+/-! ### whole enumerations: the client loop `Open…; while not eos: Pull…` (Proofs/Lemmas/PullDrain.lean) -/
+
+/-- **Every enumeration terminates, exactly.** From any reachable state, for a live session `i`
+    (its namespace exists, pull operations enabled): ANY sequence of pulls of the right kind with
+    MaxObjectCount > 0 that is at least as long as what remains delivers exactly the remaining
+    objects (order kept, nothing lost, nothing twice), reports end-of-sequence exactly once, and
+    the server afterwards is the start state without that context — whatever happens to be in the
+    other sessions of the shared table. -/
+theorem C14_terminates (s : State) (hs : Inv s) (k : Kind) (i : Nat) (c : Ctx)
+    (hl : lookup s.ctxs i = some c) (hk : c.kind = k) (hns : c.ns ∈ s.nss) (hd : s.disabled = false)
+    (ms : List Int) (hpos : ∀ m ∈ ms, 0 < m) (hlen : c.data.length ≤ ms.length) :
+    (run s (pulls k i ms)).1 = { s with ctxs := remove s.ctxs i } ∧
+    delivered (run s (pulls k i ms)).2 = c.data ∧
+    eosCount (run s (pulls k i ms)).2 = 1 :=
+  drain ms s k i c hs hl hk hns hd hpos hlen
+
+/-- the same with keep-alive pulls (MaxObjectCount = 0) anywhere in the loop: they neither deliver
+    nor end the session; `posCount ms` positive pulls ≥ remaining objects suffice -/
+theorem C14_terminates_with_keepalive (s : State) (hs : Inv s) (k : Kind) (i : Nat) (c : Ctx)
+    (hl : lookup s.ctxs i = some c) (hk : c.kind = k) (hns : c.ns ∈ s.nss) (hd : s.disabled = false)
+    (ms : List Int) (hnn : ∀ m ∈ ms, 0 ≤ m) (hlen : c.data.length ≤ posCount ms) :
+    (run s (pulls k i ms)).1 = { s with ctxs := remove s.ctxs i } ∧
+    delivered (run s (pulls k i ms)).2 = c.data ∧
+    eosCount (run s (pulls k i ms)).2 = 1 :=
+  drainKA ms s k i c hs hl hk hns hd hnn hlen
+
+/-- draining one session leaves every other session of the shared table exactly as it was -/
+theorem C14_drain_leaves_others (s : State) (hs : Inv s) (k : Kind) (i j : Nat) (c : Ctx)
+    (hl : lookup s.ctxs i = some c) (hk : c.kind = k) (hns : c.ns ∈ s.nss) (hd : s.disabled = false)
+    (ms : List Int) (hnn : ∀ m ∈ ms, 0 ≤ m) (hlen : c.data.length ≤ posCount ms) (hj : j ≠ i) :
+    lookup (run s (pulls k i ms)).1.ctxs j = lookup s.ctxs j := by
+  rw [(drainKA ms s k i c hs hl hk hns hd hnn hlen).1]
+  exact lookup_remove_other s.ctxs hj
+
+/-- **Open + pull loop = the traditional operation, and nothing stays behind.** For every accepted
+    Open (any optional parameters that `_validate_open_params` accepts, MaxObjectCount None / 0 / k)
+    on any reachable state, followed by a long-enough loop of pulls with MaxObjectCount > 0 on the
+    context it returned: the concatenated responses are exactly `objs` (the traditional result),
+    eos is reported exactly once, and the server's context table equals the one before the Open. -/
+theorem C14_whole_enumeration (s : State) (hs : Inv s) (p : OpenParams) (k : Kind) (ns : Nat)
+    (objs : List Obj) (max : Option Int) (ms : List Int)
+    (hbm : badMax max = false) (hbt : badTimeout p.timeout = false) (hd : s.disabled = false)
+    (hns : ns ∈ s.nss) (hp : paramErr p = none)
+    (hpos : ∀ m ∈ ms, 0 < m) (hlen : objs.length ≤ ms.length) :
+    (run s (Op.open p k ns objs max :: pulls k s.nextId ms)).1.ctxs = s.ctxs ∧
+    delivered (run s (Op.open p k ns objs max :: pulls k s.nextId ms)).2 = objs ∧
+    eosCount (run s (Op.open p k ns objs max :: pulls k s.nextId ms)).2 = 1 :=
+  whole_enumeration s hs p k ns objs max ms hbm hbt hd hns hp hpos hlen
+
+/-- after end-of-sequence any number of further pulls is refused, delivers nothing and changes nothing -/
+theorem C14_pulls_after_end_inert (s : State) (k : Kind) (i : Nat) (ms : List Int)
+    (h : lookup s.ctxs i = none) :
+    (run s (pulls k i ms)).1 = s ∧ delivered (run s (pulls k i ms)).2 = [] ∧
+      eosCount (run s (pulls k i ms)).2 = 0 :=
+  run_pulls_absent s k i ms h
+
+-- non-vacuity: a concrete session (3 remaining objects beside another live session) meets the hypotheses
+example :
+    let s : State := { ctxs := [⟨0, .paths, 1, [7]⟩, ⟨1, .insts, 1, [4, 5, 6]⟩], nextId := 2, nss := [1] }
+    lookup s.ctxs 1 = some ⟨1, .insts, 1, [4, 5, 6]⟩ ∧
+    (run s (pulls .insts 1 [2, 0, 1, 9])).2 =
+      [.batch [4, 5] false (some 1), .batch [] false (some 1), .batch [6] true none, .err (.cimError 21)] ∧
+    (run s (pulls .insts 1 [2, 0, 1, 9])).1.ctxs = [⟨0, .paths, 1, [7]⟩] := by decide
+
+example : (run { nss := [1] } (Op.open {} .paths 1 [1, 2, 3, 4, 5] (some 2) :: pulls .paths 0 [1, 3, 1, 1, 1])).2 =
+    [.batch [1, 2] false (some 0), .batch [3] false (some 0), .batch [4, 5] true none,
+     .err (.cimError 21), .err (.cimError 21), .err (.cimError 21)] := by decide
 
 /-! ### non-vacuity: a concrete interleaved history meets the hypotheses and exercises the claims -/
 
